@@ -1,8 +1,12 @@
-// C02 known finding: Find_Root returns a point far outside the requested accuracy when the
-// iteration cap is hit (multiple root creep): x^9 on [-1,3].
+// C02: the function changes sign (or vanishes) within the requested accuracy of the point Find_Root returns -- flat multiple roots
+// (x^9 on [-1,3]: the input of the defect repaired by e3ab227), power laws on brackets spanning many decades, saturating functions,
+// accuracies from 1e-14 |root| up to the bracket width.
 #include "harness.hpp"
 #include "libphysica/Numerics.hpp"
 #include <cmath>
+#include <vector>
+#include <functional>
+#include <algorithm>
 using namespace libphysica;
 int main()
 {
@@ -39,6 +43,42 @@ int main()
 		else
 			report("Find_Root(x^7-1e-3,[1e-6,1e3]) did not return", o, true);
 		close(fd[0]); close(fd[1]);
+	}
+	// the families named in the property: power laws x^p - c on wide brackets, saturating functions, several roots
+	{
+		struct Case { const char* name; std::function<double(double)> f; double a, b; };
+		std::vector<Case> cases = {
+			{"x^3 - 2 on [1e-10, 1e10]", [](double x) { return x * x * x - 2.0; }, 1e-10, 1e10},
+			{"x^0.5 - 3 on [1e-12, 1e12]", [](double x) { return std::sqrt(x) - 3.0; }, 1e-12, 1e12},
+			{"x^11 - 1e-8 on [1e-6, 1e3]", [](double x) { return std::pow(x, 11.0) - 1e-8; }, 1e-6, 1e3},
+			{"atan(x - 0.3) on [-1e6, 1e6]", [](double x) { return std::atan(x - 0.3); }, -1e6, 1e6},
+			{"erf(x) - 0.999999 on [-10, 10]", [](double x) { return std::erf(x) - 0.999999; }, -10.0, 10.0},
+			{"tanh(50 (x - 0.7)) on [0, 1e4]", [](double x) { return std::tanh(50.0 * (x - 0.7)); }, 0.0, 1e4},
+			{"(x-1)(x-2)(x-3) on [0, 10]", [](double x) { return (x - 1.0) * (x - 2.0) * (x - 3.0); }, 0.0, 10.0},
+			{"x^5 (flat) on [3, -1]", [](double x) { return x * x * x * x * x; }, 3.0, -1.0},
+			{"exp(x) - 1e-30 on [-200, 5]", [](double x) { return std::exp(x) - 1e-30; }, -200.0, 5.0}};
+		for(auto& c : cases)
+			for(double rel : {1e-14, 1e-9, 1e-4, 1e-1})
+			{
+				double scale = std::max(std::fabs(c.a), std::fabs(c.b));
+				// the accuracy is a multiple of the size of the root where that is known to be of order one, else of the bracket
+				double acc = rel * ((scale > 100.0) ? 1.0 : scale);
+				double r = 0.0; long outside = 0;
+				int fd[2]; if(pipe(fd)) return 3;
+				Outcome o = run_child([&]() { double v = Find_Root(c.f, c.a, c.b, acc); if(write(fd[1], &v, sizeof v) < 0) _exit(7); });
+				char what[200];
+				if(o.returned_normally && read(fd[0], &r, sizeof r) == (ssize_t) sizeof r)
+				{
+					double lo = std::min(c.a, c.b), hi = std::max(c.a, c.b);
+					double p = std::max(lo, r - acc), q = std::min(hi, r + acc);
+					bool ok = r >= lo && r <= hi && (c.f(p) * c.f(q) <= 0.0 || c.f(r) == 0.0);
+					snprintf(what, sizeof what, "Find_Root(%s, acc=%g) = %.15g: sign change within the accuracy: %s", c.name, acc, r, ok ? "yes" : "no");
+					report(what, o, !ok);
+				}
+				else { snprintf(what, sizeof what, "Find_Root(%s, acc=%g) did not return", c.name, acc); report(what, o, true); }
+				(void) outside;
+				close(fd[0]); close(fd[1]);
+			}
 	}
 	return finish();
 }
